@@ -31,7 +31,7 @@ def write():
             "guard": "eyeball_verif",
             "enable": "RUSTFLAGS=\"--cfg eyeball_verif\" (only the thread-schedule checks need it)",
             "baseline_off_cmd": "cd /repo && cargo nextest run --workspace --no-fail-fast --offline || cargo test --workspace --no-fail-fast --offline",
-            "source_commits": [],
+            "source_commits": ["b6ca4dd1273035caa31757a04883e9b9002fc002"],
             "add_only": True,
         },
         "engines": [{"name": "coq-model+correspondence", "path": "/verif/bin/ebv",
